@@ -318,6 +318,8 @@ import monitors as MON
 def _proj(prop, line):
     """The property's view of an observation line (DESIGN 4.3): a change that
     breaks one property should not light up the others."""
+    if line.startswith("left="):                         # end-of-scenario census: C14's (and C04's) business
+        return line if prop in ("C14", "C04") else ""
     if prop != "C14":
         line = re.sub(r" G=\d+,\d+,\d+", "", line)      # the goroutine census is C14's business
     o = MON.parse_obs(line)
@@ -330,10 +332,10 @@ def _proj(prop, line):
     L = o["L"]
     kind = lambda f: f.split(":")[1].split("{")[0]
     if prop == "C01":
-        return f"D={[d for d in D if '.recv:' in d or '.decode:' in d]} F={[f for f in F if kind(f) in ('msg', 'more', 'wu')]}"
+        return f"D={[d for d in D if '.recv:' in d or '.decode:' in d or '.invoke:' in d]} F={[f for f in F if kind(f) in ('msg', 'more', 'wu')]}"
     if prop == "C02":
         # headers / close frames, metadata calls, and how every receive ended (payloads abstracted)
-        ends = [re.sub(r"(recv|decode):msg:.*", r"\1:msg", d) for d in D if '.recv:' in d or '.decode:' in d]
+        ends = [re.sub(r"(recv|decode|invoke):msg:.*", r"\1:msg", d) for d in D if '.recv:' in d or '.decode:' in d or '.invoke:' in d]
         return f"F={[f for f in F if kind(f) in ('hdr', 'close')]} D={[d for d in D if '.sethdr:' in d or '.sendhdr:' in d or '.settlr:' in d or '.header:' in d or '.trailer:' in d] + ends}"
     if prop == "C06":
         return f"F={[f for f in F if kind(f) in ('msg', 'more', 'wu', 'close')]}"
@@ -351,7 +353,7 @@ def _proj(prop, line):
     if prop == "C14":
         return f"T={T} L={L} E={[e for e in E if not e.startswith('ctxdone')]}" + o["rest"]
     if prop == "C16":
-        return f"D={[d for d in D if any(x in d for x in ('.recv:', '.decode:', '.send:'))]} F={[f for f in F if kind(f) == 'close']}"
+        return f"D={[d for d in D if any(x in d for x in ('.recv:', '.decode:', '.send:', '.invoke:'))]} F={[f for f in F if kind(f) == 'close']}"
     if prop == "C18":
         return f"E={[e for e in E if e.startswith('ctxdone')]}"
     return line
@@ -653,8 +655,8 @@ PROPS = {
         "assumptions": ["as C08"],
     },
     "C01": {
-        "lean_targets": ["Proofs.Props.C01"],
-        "prop_files": ["Proofs/Props/C01.lean"],
+        "lean_targets": ["Proofs.Props.C01", "Proofs.Props.C01b"],
+        "prop_files": ["Proofs/Props/C01.lean", "Proofs/Props/C01b.lean"],
         "families": [W1("C01"), SWORLD("C01"), CWORLD("C01"), PUMP, SENDALL],
         "side_conditions": ["Proofs.Facts.chunkMax_pos"],
         "trusted_base": ["Framing.lean (chunking and reassembly), L-frame endpoint models, FIFO carrier assumption",
